@@ -45,6 +45,7 @@ type Contract struct {
 	EnsPanic []Clause
 	Modifies []string
 	Keeps    []string
+	Fresh    []Clause // [cond ::] expr — result object allocated during the call
 	Invs     map[int][]Clause
 	LoopMod  map[int][]string
 	Lemmas   []Lemma
@@ -279,6 +280,8 @@ func (cs *ContractSet) parseFile(path, pkg string, prefix string, trusted bool) 
 				cur.Ensures = append(cur.Ensures, splitLabel(rest))
 			case "ensures_panic":
 				cur.EnsPanic = append(cur.EnsPanic, splitLabel(rest))
+			case "fresh":
+				cur.Fresh = append(cur.Fresh, splitLabel(rest))
 			case "modifies":
 				cur.Modifies = append(cur.Modifies, strings.Fields(rest)...)
 			case "keeps":
